@@ -40,8 +40,14 @@ def at(seconds: float) -> Instant:
     return Instant.from_seconds(seconds)
 
 
+SEED_MODE = "derived"      # set per job by simkit.c03_exec.execute
+
+
 def sub(seed: int, k: int) -> int:
-    """A user deriving component seeds from one model seed."""
+    """How the user fills the seed= parameters of the components: 'derived' = a different seed per component computed from
+    the one model seed; 'same' = the model seed itself everywhere (so that boundary seeds such as 0 reach every component)."""
+    if SEED_MODE == "same":
+        return seed
     return (seed * 1_000_003 + k * 7919) % (2**31 - 1)
 
 
@@ -1509,14 +1515,20 @@ def _sketch_pipeline(p, seed, which):
         cols["quant"] = QuantileEstimator("quant", value_extractor=lambda e: float(len(e.context.get("customer_id", ""))) +
                                           e.context.get("n", 0) % 17, compression=50.0, seed=sub(seed, 26))
     order = list(cols.values())
+    regions = {}
 
     def fan(self, ev):
         ev.context["n"] = self.calls
+        r = ev.context.get("region")
+        regions[r] = regions.get(r, 0) + 1
         return [Event(time=self.now, event_type="Observe", target=c, context=ev.context) for c in order]
 
     fanout = Proc("fanout", fan)
+    from happysimulator.distributions.uniform import UniformDistribution
+
     prov = DistributedFieldProvider(target=fanout, event_type="Request",
-                                    field_distributions={"customer_id": ZipfDistribution(customers, s=1.1, seed=sub(seed, 27))},
+                                    field_distributions={"customer_id": ZipfDistribution(customers, s=1.1, seed=sub(seed, 27)),
+                                                         "region": UniformDistribution(["us-east", "us-west", "eu", "ap"], seed=sub(seed, 28))},
                                     stop_after=at(p["horizon"] * 0.8))
     src = Source.poisson(rate=p["rate"] / max(1, len(order)), event_provider=prov, name="src")
     sim = Simulation(sources=[src], entities=[fanout, *order], end_time=at(p["horizon"]))
@@ -1542,6 +1554,7 @@ def _sketch_pipeline(p, seed, which):
             s.add("quant.summary", q.summary())
         for nm, c in cols.items():
             s.add(f"{nm}.events", c.events_processed)
+        s.add("regions", regions)
     return sim, stats
 
 
